@@ -36,7 +36,7 @@ CLASSES = [
     "file_conflict_top", "file_conflict_nested", "equal_size", "equal_mtime", "update_older", "update_equal",
     "update_newer", "doc_flat", "doc_depth2", "doc_depth3", "doc_mixed_type", "rollback_after_partial_merge",
     "project_doc_conflict", "bykey_regex", "bykey_predicate", "custom_strategy", "no_strategy_conflict",
-    "doc_update_mode", "doc_no_sync", "doc_copy_conflict",
+    "doc_update_mode", "doc_no_sync", "doc_copy_conflict", "stale_backup_leftover", "cli_key_strategy",
 ]
 ASSUMPTIONS = [
     "'differing' without deep follows filecmp's shallow rule; the equal-size-equal-mtime cell is exercised with deep=True",
